@@ -82,6 +82,9 @@ def rule_lock(ctx):
             frames = []
             for e in outs:
                 w = [c for c in e.ctx if c[0] == "with"]
+                if any(c[0] == "wait_for" for c in e.ctx):
+                    ctx.violated("C19.LOCK", co.short, f"{show(e.data['term'])[:50]} runs under asyncio.wait_for/shield: when the wait is abandoned (timeout) the lock is released while the write is still in flight (writes through a thread pool are not cancelled), so the next message overtakes or cuts into it", fi=co, node=e.node, text=f"abandonable:{e.data['term'].args[0].args[1]}")
+                    bad = True
                 if not w:
                     ctx.violated("C19.LOCK", co.short, f"{show(e.data['term'])[:50]} is performed outside any per-connection lock: two send tasks of one connection can interleave or reorder their output", fi=co, node=e.node, text=f"unlocked:{e.data['term'].args[0].args[1]}")
                     bad = True
